@@ -315,6 +315,75 @@ def dotted(node: ast.AST) -> Optional[str]:
     return None
 
 
+_LOG_RECEIVERS = ("logging", "logger", "log", "LOGGER", "_logger", "warnings")
+_LOG_METHODS = {"debug", "info", "warning", "warn", "error", "critical", "exception", "log"}
+_PURE_CALLS = {"len", "str", "repr", "int", "float", "round", "os.path.basename", "time.time", "type"}
+
+
+def _pure_log_arg(e: ast.AST) -> bool:
+    """argument of a logging call that cannot have an effect: constants, plain names, arithmetic, f-strings over those, a few pure calls.
+    Attribute loads are NOT accepted (an attribute may be a property that draws random numbers, e.g. sampler.sample_from_continuum)."""
+    if isinstance(e, (ast.Constant, ast.Name)):
+        return True
+    if isinstance(e, ast.JoinedStr):
+        return all(_pure_log_arg(v) for v in e.values)
+    if isinstance(e, ast.FormattedValue):
+        return _pure_log_arg(e.value)
+    if isinstance(e, ast.BinOp):
+        return _pure_log_arg(e.left) and _pure_log_arg(e.right)
+    if isinstance(e, ast.UnaryOp):
+        return _pure_log_arg(e.operand)
+    if isinstance(e, ast.Call):
+        return dotted(e.func) in _PURE_CALLS and all(_pure_log_arg(a) for a in e.args) and not e.keywords
+    if isinstance(e, (ast.Tuple, ast.List)):
+        return all(_pure_log_arg(x) for x in e.elts)
+    return False
+
+
+def _is_inert(s: ast.stmt) -> bool:
+    if isinstance(s, ast.Pass):
+        return True
+    if isinstance(s, ast.Expr):
+        v = s.value
+        if isinstance(v, ast.Constant):
+            return True                                  # docstring / stray literal
+        if isinstance(v, ast.Call) and isinstance(v.func, ast.Attribute) and v.func.attr in _LOG_METHODS:
+            recv = v.func.value
+            ok_recv = (isinstance(recv, ast.Name) and recv.id in _LOG_RECEIVERS) or \
+                (isinstance(recv, ast.Call) and dotted(recv.func) in ("logging.getLogger",) and all(_pure_log_arg(a) for a in recv.args))
+            return ok_recv and all(_pure_log_arg(a) for a in v.args) and all(_pure_log_arg(k.value) for k in v.keywords)
+    return False
+
+
+def normalise_tree(tree: ast.AST) -> int:
+    """In-place canonicalisation applied to every module before any analysis, so that the rules do not depend on incidental syntax:
+      * `x: T = v`  becomes  `x = v`  (the annotation is kept on the node as `.ann` for type inference);
+      * inert statements are dropped inside functions: docstrings, `pass`, logging calls whose arguments are effect-free.
+    Returns the number of statements dropped."""
+    removed = 0
+    for fn in [n for n in ast.walk(tree) if isinstance(n, (ast.FunctionDef, ast.AsyncFunctionDef))]:
+        for node in ast.walk(fn):
+            for fld in ("body", "orelse", "finalbody"):
+                blk = getattr(node, fld, None)
+                if not isinstance(blk, list) or not blk or not isinstance(blk[0], ast.stmt):
+                    continue
+                new = []
+                for st in blk:
+                    if isinstance(st, ast.AnnAssign) and st.value is not None and isinstance(st.target, (ast.Name, ast.Attribute)):
+                        a = ast.copy_location(ast.Assign(targets=[st.target], value=st.value), st)
+                        a.end_lineno, a.end_col_offset = getattr(st, "end_lineno", None), getattr(st, "end_col_offset", None)
+                        a.ann = st.annotation
+                        new.append(a)
+                    elif _is_inert(st) and not isinstance(node, ast.ClassDef):
+                        removed += 1
+                    else:
+                        new.append(st)
+                if not new and fld == "body":
+                    new = [ast.copy_location(ast.Pass(), blk[0])]
+                setattr(node, fld, new)
+    return removed
+
+
 class Model:
     """All modules of the package, classes with MRO, functions, alias maps."""
 
@@ -335,6 +404,7 @@ class Model:
                 warnings.simplefilter("ignore")
                 tree = ast.parse(src, filename=str(p))
             mname = PKG if p.stem == "__init__" else f"{PKG}.{p.stem}"
+            self.inert_removed = getattr(self, "inert_removed", 0) + normalise_tree(tree)
             self.modules[mname] = Module(mname, f"{PKG}/{p.name}", src, tree)
         for m in self.modules.values():
             self._collect_aliases(m)
